@@ -39,6 +39,9 @@ class Path:
         self.budget = budget
         self.solver = z3.Solver()
         self.solver.set('timeout', budget.branch_ms)
+        for a in axioms:
+            if not has_quantifier(a):
+                self.solver.add(a)
         # the branch-feasibility solver sees only the quantifier-free part of
         # the path condition (an over-approximation: extra paths are explored,
         # none is lost); obligations are proved against everything.
@@ -53,6 +56,8 @@ class Path:
         self.pc.append(term)
         if not has_quantifier(term):
             self.solver.add(term)
+            for a in S.box_instances([term]):
+                self.solver.add(a)
 
     def feasible(self, term=None):
         self.solver.push()
@@ -93,22 +98,37 @@ class Path:
         if isinstance(goal, bool):
             goal = z3.BoolVal(goal)
         t0 = time.time()
-        s = z3.Solver()
-        s.set('timeout', self.budget.prove_ms)
+        inst = S.box_instances(self.pc + [goal])
         # relevance filter: an axiom is included only if it talks about an
         # uninterpreted symbol of the query (omitting the others is sound for
         # unsat, and a model extends to symbols the query never mentions)
         used = set()
         seen = set()
-        for p in self.pc:
+        for p in self.pc + inst:
             uf_names(p, used, seen)
         uf_names(goal, used, seen)
-        for a in self.axioms:
-            if uf_names(a, set(), set()) & used:
+        chosen = []
+        pending = [(a, uf_names(a, set(), set())) for a in self.axioms]
+        changed = True
+        while changed:
+            changed = False
+            for item in list(pending):
+                if item[1] & used:
+                    chosen.append(item[0])
+                    used |= item[1]
+                    pending.remove(item)
+                    changed = True
+
+        def mk(ms):
+            s = z3.Solver()
+            s.set('timeout', ms)
+            for a in chosen + inst + self.pc:
                 s.add(a)
-        for p in self.pc:
-            s.add(p)
-        s.add(z3.Not(goal))
+            s.add(z3.Not(goal))
+            return s
+        # quick attempt first: almost every obligation is decided in ms
+        quick_ms = min(3000, self.budget.prove_ms)
+        s = mk(quick_ms)
         r = s.check()
         backend = 'z3-%s' % z3.get_version_string()
         status = 'proved' if r == z3.unsat else (
@@ -118,6 +138,12 @@ class Path:
         if status == 'unknown':
             smt2 = s.to_smt2()
             status, backend = _second_opinion(smt2, self.budget, backend)
+            if status == 'unknown' and self.budget.prove_ms > quick_ms:
+                s = mk(self.budget.prove_ms)
+                r = s.check()
+                backend = 'z3-%s' % z3.get_version_string()
+                status = 'proved' if r == z3.unsat else (
+                    'failed' if r == z3.sat else 'unknown')
         if status == 'failed' and want_model and r == z3.sat:
             m = s.model()
             model = {}
